@@ -10,6 +10,6 @@ CHECKS = {
             "thorough": {"runs": 400000, "chunk": 64}},
     "C20": {"module": "sim.c20", "post": True, "quick": {"runs": 8000, "chunk": 16},
             "thorough": {"runs": 200000, "chunk": 32}},
-    "C16": {"module": "sim.c16", "quick": {"runs": 4000, "chunk": 8, "wall": 70.0},
-            "thorough": {"runs": 80000, "chunk": 8}},
+    "C16": {"module": "sim.c16", "quick": {"runs": 4800, "chunk": 12, "wall": 70.0},
+            "thorough": {"runs": 120000, "chunk": 12}},
 }
